@@ -162,12 +162,14 @@ ConIds == {"k1", "k2", "k3", "k4", "k5", "k6", "k7", "k8", "k9", "kA", "kB"}
 \* offsets of magnitude two and more: instances exist only where node k + o lies inside the horizon (nothing wraps around)
 KC == Con("kC", "le", Minus(X(1), Off(X(1), -2)), CI(3), "control", TRUE, TRUE)
 KD == Con("kD", "ge", Plus(Off(U(1), -2), Off(X(1), 1)), CI(-8), "control", TRUE, TRUE)
+\* true for every fixed horizon, and a constant once the horizon is written in: the transcription may drop it, nothing else may change
+KT0 == Con("kT0", "ge", Plus(TT, CI(1)), CI(0), "point", TRUE, TRUE)
 KW == VBox("kW", <<InfE, CI(-1)>>, <<X(1), Plus(U(1), X(1))>>, <<CI(5), CI(7)>>, "control", TRUE, FALSE)
 KX == VBox("kX", <<CI(-5), CI(-7)>>, <<Times(X(1), Tm), U(1)>>, <<CI(4), InfE>>, "control", FALSE, TRUE)
 ConOf(id) == CASE id = "k1" -> K1 [] id = "k2" -> K2 [] id = "k3" -> K3 [] id = "k4" -> K4
                [] id = "k5" -> K5 [] id = "k6" -> K6 [] id = "k7" -> K7 [] id = "k8" -> K8
                [] id = "k9" -> K9 [] id = "kA" -> KA [] id = "kB" -> KB [] id = "kR" -> KR [] id = "kS" -> KS [] id = "kV" -> KV [] id = "kM" -> KM [] id = "kMp" -> KMp
-               [] id = "kW" -> KW [] id = "kX" -> KX [] id = "kC" -> KC [] id = "kD" -> KD
+               [] id = "kW" -> KW [] id = "kX" -> KX [] id = "kC" -> KC [] id = "kD" -> KD [] id = "kT0" -> KT0
 
 (***************************************************************************)
 (* Objective terms.  Integrands live in d.quads and are referred to by     *)
